@@ -172,6 +172,22 @@ void explore04(Options const& o, std::vector<Shim*> const& shims, std::vector<Sh
         }
       }
     }
+  // two conversions of the same object inside one function, with a modification in between (stale-value check)
+  {
+  int c_seq = rec.cls("C04.fixed_to_int.second_conversion_of_modified_object_wrong");
+  std::vector<i64> sv { 0, 65536, -65536, 98304, -98305, 127 * 65536 + 1, -128 * 65536, 255 * 65536 + 65535, 256 * 65536, 32767ll * 65536, -32768ll * 65536 - 1, 65535ll * 65536, (1ll << 31) * 65536 - 1, -(1ll << 31) * 65536, (1ll << 32) * 65536 - 65536, 1ll << 62, FX_MAX, FX_LOWEST, 5, -5 };
+  for( size_t ci = 0; ci < shims.size(); ++ci )
+    {
+    Shim* s = shims[ci]; LocalViol lv(rec); u64 n = 0;
+    for( int t : INT_TYPES ) for( size_t i = 0; i < sv.size(); ++i ) for( size_t j = 0; j < sv.size(); ++j )
+      {
+      u64 r1 = 0, r2 = 0; s->fm_seq_conv(t, sv[i], sv[j], &r1, &r2); ++n;
+      u64 e1 = C04::to_int_model(t, sv[i]), e2 = C04::to_int_model(t, sv[j]);
+      if( r1 != e1 || r2 != e2 ) { i64 a = sv[i], b = sv[j]; lv.hit(c_seq, (static_cast<u64>(ci) << 56) | (static_cast<u64>(t) << 48) | (i * 64 + j), [=]{ return ex1(s, "static_cast<T>(x); x = b; static_cast<T>(x)", TN[t], {{"a",to_s(a)},{"b",to_s(b)}}, to_su(e1) + ", " + to_su(e2), to_su(r1) + ", " + to_su(r2), "seq", {to_s(t), to_s(a), to_s(b)}); }); }
+      }
+    rec.add_states(n, n, 2 * n);
+    }
+  }
   rec.sample("fixed_t{int32_t(-2147483648)} -> " + to_s(shims[0]->fm_from_int(FI_CTOR, T_I32, 0x80000000ull)) + " (NaN expected); fixed_t{uint32_t(2147483647)} -> " + to_s(shims[0]->fm_from_int(FI_CTOR, T_U32, 0x7fffffffull)));
   rec.sample("static_cast<uint8_t>(300.5) -> " + to_su(shims[0]->fm_to_int(TI_STATIC_CAST, T_U8, 300*65536+32768)) + " (0 expected); static_cast<int8_t>(-0.5) -> " + to_s(static_cast<i64>(shims[0]->fm_to_int(TI_STATIC_CAST, T_I8, -32768))));
   }
@@ -183,6 +199,8 @@ void replay04(Options const& o, Shim* s, Recorder& rec)
   else if( o.rcase == "promo" ) c.promo(s, static_cast<int>(parse_i64(o.rin.at(0))), static_cast<int>(parse_i64(o.rin.at(1))), parse_u64(o.rin.at(2)), 0, d);
   else if( o.rcase == "to" ) { int how = static_cast<int>(parse_i64(o.rin.at(0))), t = static_cast<int>(parse_i64(o.rin.at(1))); i64 x = parse_i64(o.rin.at(2)); c.to_int(s, how, t, x, s->fm_to_int(how, t, x), 0, d); }
   else if( o.rcase == "rt" ) c.round_trip(s, static_cast<int>(parse_i64(o.rin.at(0))), parse_u64(o.rin.at(1)), 0, d);
+  else if( o.rcase == "seq" ) { int t = static_cast<int>(parse_i64(o.rin.at(0))); i64 a = parse_i64(o.rin.at(1)), b = parse_i64(o.rin.at(2)); u64 r1 = 0, r2 = 0; s->fm_seq_conv(t, a, b, &r1, &r2);
+    if( r1 != C04::to_int_model(t, a) || r2 != C04::to_int_model(t, b) ) rec.viol(rec.cls("C04.fixed_to_int.second_conversion_of_modified_object_wrong"), 0, [&]{ return ex1(s, "two conversions in one function", TN[t], {{"a",to_s(a)},{"b",to_s(b)}}, to_su(C04::to_int_model(t, a)) + ", " + to_su(C04::to_int_model(t, b)), to_su(r1) + ", " + to_su(r2), o.rcase, o.rin); }); }
   rec.add_states(1,1,1);
   }
 
@@ -419,6 +437,22 @@ void explore05(Options const& o, std::vector<Shim*> const& shims, std::vector<Sh
     rec.add_states(fxs.size() + total, 2 * (fxs.size() + total), fxs.size() + total);
     }
     }
+  // two conversions of the same object inside one function, with a modification in between (stale-value check)
+  {
+  int c_seq = rec.cls("C05.fixed_to_fp.second_conversion_of_modified_object_wrong");
+  std::vector<i64> sv { 0, 1, -1, 65536, 98304, -163840, 294912, 205887, (1ll << 40) + 3, -(1ll << 46) - 77, (1ll << 53) - 1, 12345678901ll, -98765432109ll, 1ll << 24, (1ll << 24) + 1 };
+  for( size_t ci = 0; ci < shims.size(); ++ci )
+    {
+    Shim* s = shims[ci]; LocalViol lv(rec); u64 n = 0;
+    for( int t : { T_F32, T_F64 } ) for( size_t i = 0; i < sv.size(); ++i ) for( size_t j = 0; j < sv.size(); ++j )
+      {
+      u64 r1 = 0, r2 = 0; s->fm_seq_conv(t, sv[i], sv[j], &r1, &r2); ++n;
+      u64 e1 = s->fm_to_fp(TF_STATIC_CAST, t, sv[i]), e2 = s->fm_to_fp(TF_STATIC_CAST, t, sv[j]);      // single conversions are judged above
+      if( r1 != e1 || r2 != e2 ) { i64 a = sv[i], b = sv[j]; lv.hit(c_seq, (static_cast<u64>(ci) << 56) | (static_cast<u64>(t) << 48) | (i * 64 + j), [=]{ return ex1(s, "static_cast<T>(x); x = b; static_cast<T>(x)", t == T_F32 ? "float" : "double", {{"a",to_s(a)},{"b",to_s(b)}}, hex(e1) + ", " + hex(e2), hex(r1) + ", " + hex(r2), "seq", {to_s(t), to_s(a), to_s(b)}); }); }
+      }
+    rec.add_states(n, 3 * n, 2 * n);
+    }
+  }
   rec.note("alphabet", "float->fixed: ALL 2^32 bit patterns on " + std::to_string(full32_cfgs) + " configuration(s) + " + std::to_string(flt.size()) + " structured patterns on every configuration and entry point; double->fixed: "
            + std::to_string(dbl.size()) + " patterns (all 2048 exponents x mantissa top/bottom bit patterns, exact ties k/2^17 and +-2 ulp neighbours, +-4096 ulp windows at the range boundary); fixed->fp: "
            + std::to_string(fxs.size()) + " values (S, halfway points of the float/double formats +-2) u every raw in [-" + to_s(D) + "," + to_s(D) + "]");
@@ -435,6 +469,9 @@ void replay05(Options const& o, Shim* s, Recorder& rec)
   else if( o.rcase == "to" ) { int how = static_cast<int>(parse_i64(o.rin.at(0))), t = static_cast<int>(parse_i64(o.rin.at(1))); i64 x = parse_i64(o.rin.at(2));
     c.to_fp(s, how, t, x, s->fm_to_fp(how, t, x), 0, d); u64 out; s->fm_to_fp_batch(how, t, &x, 1, &out); c.to_fp(s, how, t, x, out, 0, d); }
   else if( o.rcase == "rt" ) c.round_trip(s, parse_i64(o.rin.at(0)), 0, d);
+  else if( o.rcase == "seq" ) { int t = static_cast<int>(parse_i64(o.rin.at(0))); i64 a = parse_i64(o.rin.at(1)), b = parse_i64(o.rin.at(2)); u64 r1 = 0, r2 = 0; s->fm_seq_conv(t, a, b, &r1, &r2);
+    u64 e1 = s->fm_to_fp(TF_STATIC_CAST, t, a), e2 = s->fm_to_fp(TF_STATIC_CAST, t, b);
+    if( r1 != e1 || r2 != e2 ) rec.viol(rec.cls("C05.fixed_to_fp.second_conversion_of_modified_object_wrong"), 0, [&]{ return ex1(s, "two conversions in one function", "", {{"a",to_s(a)},{"b",to_s(b)}}, hex(e1) + ", " + hex(e2), hex(r1) + ", " + hex(r2), o.rcase, o.rin); }); }
   rec.add_states(1,1,1);
   }
 }
